@@ -17,7 +17,7 @@
     (Lemmas/OptLenZero.lean): **`decoded_dist_nonneg_float_non_catmull`**, **`encode_decoded_no_panic_float_no_catmull`**
     — unconditional for every byte string whose decoded sliders are of that kind;
   * for osu!-path-mode Catmull sliders `optimized_len = Σ (removed − chord)` is computed with rounding and IS negative
-    on ordinary inputs (`optLen_negative_witness`: control points `(0,0) C, (1,2)` give `−2.4e-8`; the exact-arithmetic
+    on ordinary inputs (`optLen_negative_witness`, Props/C01IeeeWitness.lean: control points `(0,0) C, (1,2)` give `−2.4e-8`; the exact-arithmetic
     theorem `C16.calculatePath_optLen_nonneg` does not transfer to IEEE). That the following chord lengths outweigh it
     is a rounding-error analysis that is NOT done here; it is the hypothesis `CatmullSurplusOk` of
     **`decoded_dist_nonneg_float_partial`** / **`encode_decoded_no_panic_float_partial`**, and
@@ -407,7 +407,7 @@ def fileModeAfter : List UInt8 := asciiBytes "[HitObjects]\n0,0,0,2,0,L|100:0,1\
 /-- a taiko map with a slider whose stored length is below the path's. -/
 def fileTaiko : List UInt8 := asciiBytes "[General]\nMode: 1\n[HitObjects]\n0,0,0,2,0,B|30:40|60:0,2,7.5\n"
 
-/-- a catch map (mode line first) with a perfect-curve slider and no length field. -/
+/-- a catch map (mode line first) with a two-segment linear slider and no length field. -/
 def fileCatch : List UInt8 := asciiBytes "[General]\nMode: 2\n[HitObjects]\n10,20,0,2,0,L|13:24|13:30,1\n"
 
 /-- the decoded map's mode and the path modes of its sliders. -/
